@@ -1085,8 +1085,13 @@ rrul_fill_yly(echs_instant_t *restrict tgt, size_t nti, rrulsp_t rr)
 		ass_bi447(&pdow, ymd_get_wday(proto.y, proto.m, proto.d));
 	}
 
-	y -= echs_shift_dvalue(rr->shift) > 0 ||
-		echs_shift_bday_p(rr->shift) && !echs_shift_neg_p(rr->shift);
+	if ((echs_shift_dvalue(rr->shift) > 0 ||
+	     echs_shift_bday_p(rr->shift) && !echs_shift_neg_p(rr->shift)) &&
+	    rr->inter <= y) {
+		/* candidates of the period before might be shifted to here,
+		 * go back a whole interval to stay in phase */
+		y -= rr->inter;
+	}
 
 	/* fill up the array the hard way */
 	for (res = 0UL, tries = 64U; res < nti && --tries; y += rr->inter) {
@@ -1292,14 +1297,20 @@ rrul_fill_mly(echs_instant_t *restrict tgt, size_t nti, rrulsp_t rr)
 		tmp = echs_shift_dvalue(rr->shift) +
 			echs_shift_bvalue(rr->shift) * 7 / 5;
 
-		m -= tmp-- > 0;
-		m -= tmp / 30;
-		y -= m <= 0;
-		m += m > 0 ? 0 : 12;
-		m = m > 0 ? m : 1;
-		/* negative shifts look ahead, possibly into next year */
-		y += (m - 1) / 12;
-		m = (m - 1) % 12 + 1;
+		if (tmp > 0 && rr->inter <= 12U * y) {
+			/* candidates of earlier months might be shifted to
+			 * here, go back a whole number of intervals so as to
+			 * stay in phase */
+			unsigned int back = (tmp - 1) / 30 + 1;
+
+			back += rr->inter - 1U;
+			back -= back % rr->inter;
+			y -= back / 12U;
+			if ((m -= back % 12U) <= 0) {
+				m += 12;
+				y--;
+			}
+		}
 	}
 
 	/* get m on track */
